@@ -297,6 +297,10 @@ func (r *rewriter) rewrite() bool {
 				case p == "time" && name == "Now":
 					c.Replace(sim("Now"))
 					r.count("R4_time_now")
+				case p == "time" && (name == "NewTicker" || name == "NewTimer" || name == "AfterFunc" || name == "After" || name == "Tick"):
+					// timers are registered so that they can be stopped when the simulated process ends
+					c.Replace(sim(name))
+					r.count("R8_timer")
 				case p == "os/signal" && name == "Notify":
 					c.Replace(sim("SignalNotify"))
 					r.count("R5_signal_notify")
